@@ -258,6 +258,15 @@ func checkACS(r *Report, sc *Scope) {
 						ap = ofc.AP(iv)
 					}
 				}
+				if fa, ok := o.V.(*ssa.FieldAddr); ok {
+					// &pair.endpoint where pair := struct{descriptor, endpoint}{d, e} holds the private copies: named by what the
+					// literal stored into the field
+					if al, ok := fa.X.(*ssa.Alloc); ok {
+						if iv := literalFieldValue(al, []int{fa.Field}, 0); iv != nil {
+							ap = ofc.AP(iv)
+						}
+					}
+				}
 				cnd := fc.AbsCond(b)
 				for _, vb := range o.Via {
 					vfc := rg.Ctx(a, vb.C)
